@@ -12,6 +12,8 @@ pub mod c03;
 pub mod c04;
 pub mod c05;
 pub mod c06;
+pub mod c09;
+pub mod c19;
 
 pub type RunFn = fn(&RunCfg) -> (Outcome, EvidenceExtra);
 pub type ReplayFn = fn(&RunCfg, &'static dyn Proto, &Value) -> Result<CaseResult, Inconclusive>;
@@ -33,5 +35,7 @@ pub fn registry() -> Vec<(&'static str, RunFn, ReplayFn)> {
         ("C04", c04::run as RunFn, replay_fn!(c04)),
         ("C05", c05::run as RunFn, replay_fn!(c05)),
         ("C06", c06::run as RunFn, replay_fn!(c06)),
+        ("C09", c09::run as RunFn, replay_fn!(c09)),
+        ("C19", c19::run as RunFn, replay_fn!(c19)),
     ]
 }
